@@ -409,6 +409,9 @@ func applyPatch(repo, patchFile string) (map[string][]byte, error) {
 	defer os.RemoveAll(tmp)
 	for _, f := range files {
 		src, err := os.ReadFile(filepath.Join(repo, f))
+		if os.IsNotExist(err) {
+			continue // a file the patch creates
+		}
 		if err != nil {
 			return nil, err
 		}
